@@ -276,7 +276,14 @@ impl Evaluator<'_, '_, '_, '_> {
                     Memory::Direct(mem) => {
                         entrypoint::get_pe_or_elf_entry_point(mem, self.scan_data.process_memory)
                     }
-                    Memory::Fragmented { .. } => self.scan_data.entrypoint,
+                    Memory::Fragmented { .. } => {
+                        // The value is computed while the regions are scanned: before this
+                        // scan is done, it is not known yet.
+                        if self.var_matches.is_none() {
+                            return Err(PoisonKind::VarNeeded);
+                        }
+                        self.scan_data.entrypoint
+                    }
                 };
                 res.and_then(|ep| i64::try_from(ep).ok())
                     .map(Value::Integer)
